@@ -274,6 +274,12 @@ pub fn gen(ctx: &mut Ctx) {
     }
     // mutated assets (thorough): random byte edits in the metadata region
     if ctx.thorough {
+        if let Ok(d) = std::fs::read_dir("work") {
+            let pre = format!("c04-mut-{}-", si);
+            for e in d.filter_map(|e| e.ok()) {
+                if e.file_name().to_string_lossy().starts_with(&pre) { let _ = std::fs::remove_file(e.path()); }
+            }
+        }
         for p in asset_paths() {
             if let Ok(orig) = std::fs::read(&p) {
                 if orig.len() > 40_000 { continue; }
@@ -286,8 +292,8 @@ pub fn gen(ctx: &mut Ctx) {
                     let path = format!("work/c04-mut-{}-{}.bin", si, ctx.n);
                     let _ = std::fs::create_dir_all("work");
                     std::fs::write(&path, &b).unwrap();
+                    // the driver reads the blob later: files stay until the next thorough run of this shard
                     ctx.req(&format!("hostile @{}", path));
-                    let _ = std::fs::remove_file(&path);
                 }
             }
         }
